@@ -36,6 +36,28 @@ def run(ctx):
     bodies = _bodies(prog)
     for b in bodies:
         ctx.touch(b, len(b.calls()))
+    # analysis units for the path / file-system rules: every routine of the module with its private same-file helpers spliced
+    # in; a private helper that only works for other routines is seen there and not judged on its own
+    def _is_helper(b_):
+        rb_ = prog.bodies.get(b_.root)
+        if rb_ is None or rb_.is_pub or rb_.impl_trait:
+            return False
+        owners = prog.owner_roots(b_.root)
+        return bool(owners) and owners != {b_.root}
+    helper_roots = sorted(set(b_.root for b_ in bodies if not b_.parent and _is_helper(b_) and not re.search(r'::(rotate|write_entry|new)$', b_.root)
+                              and not b_.root.startswith(MGRT + '::')))
+    # (methods of the manager keep their identity — the rules name them; free functions and helper-type methods are spliced)
+    only_rx = '|'.join(re.escape(h) + '(::\\{closure#0\\})?$' for h in helper_roots) if helper_roots else None
+    units = []
+    for b_ in bodies:
+        if b_.root in helper_roots:
+            continue
+        if b_.is_async and prog.has_body(b_.id + '::{closure#0}'):
+            continue        # the coroutine body is the unit
+        if only_rx and (not b_.parent or b_.is_coroutine):
+            units.append(prog.inl(b_.id, only=only_rx))
+        else:
+            units.append(b_)
 
     # ------------------------------------------------------------------ 1. log before apply
     # public mutating APIs = pub `&self` methods of the manager whose body applies a change to the
@@ -59,7 +81,7 @@ def run(ctx):
         return False
 
     def is_replay(bid):
-        return prog.reaches_call(bid, lambda cs: cs.callee.endswith('::verify_wal_entry'), depth=3)
+        return prog.reaches_call(bid, lambda cs: cs.callee == L.wal_roles(prog)[1], depth=3)
 
     n_api = 0
     for rid in sorted(set(b.root for b in bodies if b.root.startswith(MGRT + '::'))):
@@ -96,7 +118,7 @@ def run(ctx):
     ctx.floor('LOG-BEFORE-APPLY', 3)
 
     # ------------------------------------------------------------------ 2. ordering in checkpoint / rotate / write_entry
-    for b in bodies:
+    for b in units:
         rn = b.calls(r'^std::fs::rename$')
         for cs in rn:
             key = 'rename@%s' % b.id
@@ -104,7 +126,7 @@ def run(ctx):
             oks = False
             for s in syncs:
                 te = F.try_edges(b, s)
-                if te and te[0] is not None and b.dominates(te[0], cs.bb):
+                if te and te[0] is not None and F.holds_at(b, te[0], cs.bb):
                     oks = True
             ctx.ob('SYNC-BEFORE-RENAME', key, oks, cs.where(),
                    'rename is%s dominated by the Ok edge of a sync_all on the file being published' % ('' if oks else ' NOT'), entry=b.root)
@@ -122,7 +144,7 @@ def run(ctx):
     ctx.floor('SYNC-BEFORE-RENAME', 2)
     ctx.floor('RENAME-BEFORE-DELETE', 3)
     # checkpoint writes only to a path derived from with_extension("tmp")
-    for b in bodies:
+    for b in units:
         if not b.root.startswith(MGRT + '::checkpoint'):
             continue
         for cs in b.calls(r'OpenOptions::open$'):
@@ -296,6 +318,13 @@ def run(ctx):
                'cannot determine the log file-name scheme / sort direction (active=%s rotated=%s ascending=%s): fail closed' % (active_tpl, rotated_tpl, asc))
     else:
         def is_int_arg(e):
+            for _i in range(4):
+                e2 = L._tuple_proj(e) if e is not None else None
+                while e2 is not None and e2.k == 'let':
+                    e2 = e2.c
+                if e2 is e or e2 is None:
+                    break
+                e = e2
             e = e.strip() if e is not None else None
             while e is not None and e.k in ('ref', 'deref'):
                 e = e.a
@@ -452,8 +481,9 @@ def run(ctx):
     HDR = 'persistent_state::SnapshotHeader'
     startup = (MGRT + '::new', WW + '::new', MGR + '::new')
     nh = 0
+    CK = MGRT + '::checkpoint'
     for b in bodies:
-        if not b.root.startswith(MGRT + '::checkpoint'):
+        if not (b.root.startswith(CK) or prog.owner_roots(b.root, stop={CK}) == {CK}):
             continue
         for bi, si, st in b.stmts():
             r = st['r']
@@ -560,7 +590,7 @@ def run(ctx):
                 t.add('walpath')
         return t
     nfs = 0
-    for b in bodies:
+    for b in units:
         for cs in b.calls(WRITER):
             nfs += 1
             name = cs.short()
@@ -658,9 +688,11 @@ def run(ctx):
             if r.get('adt') == TT and r.get('var'):
                 written.add(r['var'])
     nrt = 0
-    for b in bodies:
-        if not b.root.startswith(MGRT + '::replay_wal_file'):
-            continue
+    VERFN_ = L.wal_roles(prog)[1]
+    replay_inl = [prog.inl(b_.id, keep=re.escape(VERFN_) + '$') for b_ in bodies if b_.root == MGRT + '::replay_wal_file' and b_.is_coroutine]
+    if not replay_inl:
+        replay_inl = [prog.inl(b_.id, keep=re.escape(VERFN_) + '$') for b_ in bodies if b_.id == MGRT + '::replay_wal_file']
+    for b in replay_inl:
         for bi, t in b.terms():
             if t['k'] != 'switch':
                 continue
@@ -686,7 +718,7 @@ def run(ctx):
                 vname = variants[int(val)] if int(val) < len(variants) else None
                 if vname is None:
                     continue
-                reach = b.reachable_from([n], passn)
+                reach = b.reachable_tracking([n], passn)
                 silent = h in reach
                 covered[vname] = (not silent, n)
             for vname in sorted(written):
@@ -704,12 +736,10 @@ def run(ctx):
     # next iteration changes the state map, counts a failure, or goes through the arm of a record type no API writes
     # (Checkpoint markers). A filter placed after verification ("already covered by the snapshot", "older than ..") drops
     # acknowledged operations: ids are allocated before a record is logged, so a snapshot id says nothing about what it holds.
-    for b in bodies:
-        if not b.root.startswith(MGRT + '::replay_wal_file'):
-            continue
+    for b in replay_inl:
         for n, e in sorted(b.edge_nodes().items()):
             c = F.edge_cond(b, e)
-            if not (c.kind == 'bool' and c.truth and c.expr.k == 'call' and c.expr.a.endswith('::verify_wal_entry')):
+            if not (c.kind == 'bool' and c.truth and c.expr.k == 'call' and c.expr.a == L.wal_roles(prog)[1]):
                 continue
             loops = [(h, ns) for h, ns in L.natural_loops(b) if e[0] in ns]
             if not loops:
@@ -732,13 +762,13 @@ def run(ctx):
                     for n2, (src, val, dst) in b.edges_of(sbi):
                         if val != 'otherwise' and int(val) < len(variants) and variants[int(val)] not in written:
                             passn.add(n2)
-            reach = b.reachable_from([n], passn)
+            reach = b.reachable_tracking([n], passn)
             silent = h in reach
             wit = None
             if silent:
                 # the branch that lets the record through: the first switch edge on a skipping path that is not the type match
                 for n3, e3 in sorted(b.edge_nodes().items()):
-                    if n3 in reach and h in b.reachable_from([n3], passn):
+                    if n3 in reach and h in b.reachable_tracking([n3], passn):
                         c3 = F.edge_cond(b, e3)
                         if not (c3.kind == 'disc' and c3.expr.show().endswith('.transaction_type')):
                             wit = (b.line_of_block(e3[0]), c3.brief(90))
